@@ -50,6 +50,7 @@ def normalise(out, mc, pending):
     fails = []
     t0 = time.time()
     sites = 0
+    files_seen = [0]
     roots = [fn[0]] + [f for f in fns if f.name.startswith("load_configs_raw::{closure")]
     npaths = 0
     single_ok = False
@@ -61,14 +62,36 @@ def normalise(out, mc, pending):
             if p.kind not in ("return", "cut"):
                 fails.append("%s: path kind %s" % (root.name, p.kind))
                 continue
+            first = True
             for e in p.trace:
                 if e.get("short", e["callee"]) != "merge_values":
                     continue
                 sites += 1
+                base = e["akeys"][0]
+                if root is fn[0]:
+                    if "::next" in base or "into_iter" in base or not re.search(r"Object:None\(opq:\(call,::default", base):
+                        fails.append("the accumulator documents are merged into is not the empty object / the result of the earlier merges (%s): a raw document serves as base" % base[:60])
+                    elif first and "havoc" in base:
+                        fails.append("the first merge does not start from the empty object")
+                first = False
                 over = e["akeys"][1]
                 if "FlattenConfigObject::to_emmyrc" not in over or "FlattenConfigObject::parse" not in over:
                     fails.append("documents are merged in their raw spelling (merge_values in %s gets %s): a flat key of one file and the nested form of another "
                                  "do not meet" % (root.name.split("::")[-1], over[:60]))
+            if root is fn[0]:
+                # every file of the list is read, whatever happened to the files before it
+                evs = p.trace
+                for i, e in enumerate(evs):
+                    if e.get("short", "").endswith("::next") and "PathBuf" in e["callee"] and isinstance(e["result"], symex.Opaque):
+                        if not mc.implied_eq(p, ex.discriminant(p.state, e["result"]).term, 1):
+                            continue
+                        files_seen[0] += 1
+                        item = symex.kfmt(e["result"].k)
+                        rest = evs[i + 1:]
+                        stop = next((j for j, g in enumerate(rest) if g.get("short", "").endswith("::next") and "PathBuf" in g["callee"]), len(rest))
+                        reads = [g for g in rest[:stop] if re.search(r"read_file_with_encoding$", g.get("short", "")) and item in g["akeys"][0]]
+                        if not reads and (stop < len(rest) or p.kind == "return"):
+                            fails.append("a file of the list is not read")
             if root is fn[0] and p.kind == "return":
                 nm = _names(p)
                 if "merge_values" not in nm and "fold" not in nm and "FlattenConfigObject::to_emmyrc" in nm:
@@ -78,6 +101,8 @@ def normalise(out, mc, pending):
         fails.append("no merge_values call is reachable from load_configs_raw")
     if not single_ok:
         fails.append("no path returns a single document in normal form")
+    if files_seen[0] == 0:
+        fails.append("load_configs_raw does not walk the list of files itself (no file item is seen being read)")
     ob.witness = sites > 0
     ob.solver_s = time.time() - t0
     ob.extra = {"merge_call_sites_seen_on_paths": sites}
@@ -240,57 +265,80 @@ def placement(out, mc, pending, tier):
     c31flat.install(ex, S, 2)
     # record where values are stored: wrap the index_mut model with an event
     inner = [(rx, h) for rx, h in ex.models if "index_mut" in rx]
+    inner_obj = [(rx, h) for rx, h in ex.models if "is_object" in rx]
 
     def m_index_mut(ex_, st, cname, args, dest_ty, fn_):
         r = inner[0][1](ex_, st, cname, args, dest_ty, fn_)
         st.trace.append(symex.Event(callee="<index_mut>", short="<index_mut>", args=args, akeys=[ex_.deep_key(st, a) for a in args], result=r, fn=fn_.name))
         return r
-    ex.models = [(inner[0][0], m_index_mut)] + ex.models
+
+    def m_is_object(ex_, st, cname, args, dest_ty, fn_):
+        r = inner_obj[0][1](ex_, st, cname, args, dest_ty, fn_)
+        st.trace.append(symex.Event(callee="<is_object>", short="<is_object>", args=args, akeys=[ex_.deep_key(st, a) for a in args], result=r, fn=fn_.name))
+        return r
+    ex.models = [(inner[0][0], m_index_mut), (inner_obj[0][0], m_is_object)] + ex.models
     t0 = time.time()
     paths = ex.run(fn[0])
     fails = []
     entries = 0
+
+    def seg_of(k):
+        return [int(i) for _, i in re.findall(r"\(segment,(\d+),(\d+)\)", k)]
     for p in paths:
         if p.kind != "return":
             fails.append("path kind %s %s" % (p.kind, p.info[:60]))
             continue
-        # split the trace per map entry (collect event = start of an entry: it produced the segment vector)
+        # one chunk of the trace per entry of the flattened map (from the iterator's next to the following one)
         chunks, cur = [], None
         for e in p.trace:
             sn = e.get("short", e["callee"])
-            if sn == "split":
+            if sn == "<flat_next>":
                 cur = []
                 chunks.append(cur)
-            if cur is not None:
+            elif cur is not None:
                 cur.append(e)
         for ch in chunks:
-            segs = None
-            for e in ch:
-                if e.get("short", e["callee"]) == "<index_mut>":
-                    segs = e
+            if not ch:
+                continue            # the terminating next
             ent = [e for e in ch if re.search(r"Map::entry$", e.get("short", e["callee"]))]
             tos = [e for e in ch if re.search(r"to_string$", e.get("short", e["callee"]))]
             idx = [e for e in ch if e.get("short", e["callee"]) == "<index_mut>"]
             if len(idx) != 1:
-                fails.append("a flattened key is stored %d times" % len(idx))
+                fails.append("one flattened key is stored %d times" % len(idx))
                 continue
             entries += 1
-            # segment ids appear in the keys as (segment,<c>,<i>)
-            def seg_of(k):
-                m = re.findall(r"\(segment,(\d+),(\d+)\)", k)
-                return [int(i) for _, i in m]
             last = seg_of(idx[0]["akeys"][1])
-            used = [seg_of(e["akeys"][0]) for e in tos]
-            n = (last[-1] + 1) if last else None
-            if n is None:
-                fails.append("the final store does not use a segment of the key")
+            if not last:
+                fails.append("a value is stored under something that is not a segment of its split key (a path that bypasses the descent and its guards)")
                 continue
+            used = [seg_of(e["akeys"][0]) for e in tos]
+            n = last[-1] + 1
             want = [[i] for i in range(n - 1)]
             if [u[-1:] for u in used] != want or len(ent) != n - 1:
                 fails.append("a key of %d segments descends through %s instead of segments 0..%d in order" % (n, [u[-1:] for u in used], n - 2))
-            if last[-1:] != [n - 1]:
-                fails.append("the value is stored under a segment that is not the last one")
+            # guards that make the result independent of the map's iteration order ("the nested form wins"):
+            # every step first asks is_object(current) (and replaces a non-object), and the final store is skipped when the slot holds an object
+            objs = [e for e in ch if e.get("short") == "<is_object>"]
+            if len(objs) < n + 1:
+                fails.append("a descent of %d segments asks is_object only %d times (each level and the final slot must be asked)" % (n, len(objs)))
+                continue
+            slot_q = objs[-1]
+            slot_cell = idx[0]["result"]
+            stored = False
+            if isinstance(slot_cell, symex.Ref):
+                v = ex.deref(p.state, slot_cell)
+                stored = not (isinstance(v, symex.Opaque) and symex.kfmt(v.k).startswith("(json,index_mut"))
+            r, _ = mc.check(list(p.pc) + [slot_q["result"].term], "slot_is_object")
+            slot_is_obj_possible = r != "unsat"
+            r2, _ = mc.check(list(p.pc) + [z3.Not(slot_q["result"].term)], "slot_not_object")
+            slot_not_obj_possible = r2 != "unsat"
+            if stored and slot_is_obj_possible:
+                fails.append("a scalar is stored over a slot that may already hold the nested object of a longer key (result depends on hash order)")
+            if not stored and slot_not_obj_possible:
+                fails.append("the value of a key is not stored although its slot holds no object")
     ob.witness = entries > 0
+    if entries == 0:
+        fails.append("no entry of the flattened map was followed through the descent (vacuous)")
     ob.extra = {"paths": len(paths), "entries_checked": entries}
     ob.solver_s = round(time.time() - t0, 2)
     if fails:
@@ -320,9 +368,9 @@ def ref_merge(docs):
                     d[segs[-1]] = {}
                 for k2, v2 in v.items():
                     put(d[segs[-1]], k2.split("."), v2)
-            else:
+            elif not isinstance(d.get(segs[-1]), dict):      # the nested form wins over a scalar under the same key
                 d[segs[-1]] = v
-        for k, v in doc.items():
+        for k, v in sorted(doc.items(), key=lambda kv: isinstance(kv[1], dict)):
             put(outd, k.split("."), v)
         return outd
 
@@ -362,14 +410,27 @@ def battery():
     cases.append(("deep_flat_then_nested", [{"runtime.version": "Lua5.1"}, {"runtime": {"version": "Lua5.4"}}], "/runtime/version"))
     cases.append(("deep_nested_then_flat", [{"runtime": {"version": "Lua5.1"}}, {"runtime.version": "Lua5.4"}], "/runtime/version"))
     cases.append(("unrelated_keys_survive", [{"runtime.version": "Lua5.1", "diagnostics.enable": False}, {"diagnostics": {"disable": ["x"]}}], "/runtime/version"))
+    # determinism for a key that is both a value and a prefix inside ONE document: the nested form wins in every load
+    cases.append(("value_and_prefix_one_doc", [{"diagnostics": 0, "diagnostics.enable": False}], "/diagnostics/enable"))
+    cases.append(("value_and_prefix_null", [{"runtime": None, "runtime.version": "Lua5.4"}], "/runtime/version"))
+    cases.append(("value_and_prefix_two_docs", [{"diagnostics": 0, "diagnostics.enable": False}, {"runtime.version": "Lua5.4"}], "/diagnostics/enable"))
     cases.append(("sibling_keys_survive", [{"diagnostics": {"enable": False}}, {"diagnostics.disable": ["x"]}], "/diagnostics/enable"))
     cases.append(("sibling_keys_survive2", [{"diagnostics.enable": False}, {"diagnostics": {"disable": ["x"]}}], "/diagnostics/disable"))
     return cases
 
 
+FILE_CASES = [
+    # (id, files [(name, text or None)], pointer, expected value): an unusable file does not stop the files behind it
+    ("broken_file_in_the_middle", [("a.json", '{"runtime.version": "Lua5.1"}'), ("b.json", '{ this is not json'), ("c.json", '{"runtime": {"version": "Lua5.4"}}')], "/runtime/version", "Lua5.4"),
+    ("missing_file_first", [("nope.json", None), ("c.json", '{"diagnostics.enable": false}')], "/diagnostics/enable", False),
+    ("two_good_files", [("a.json", '{"diagnostics": {"enable": true}}'), ("c.json", '{"diagnostics.enable": false}')], "/diagnostics/enable", False),
+]
+
+
 def run_battery():
     cases = battery()
-    sc = {"kind": "config_merge", "repeat": 6, "cases": [{"id": c[0], "docs": c[1], "pointer": c[2]} for c in cases]}
+    sc = {"kind": "config_merge", "repeat": 12, "cases": [{"id": c[0], "docs": c[1], "pointer": c[2]} for c in cases] +
+          [{"id": c[0], "docs": [], "files": [{"name": n, "text": t} if t is not None else {"name": n} for n, t in c[1]], "pointer": c[2]} for c in FILE_CASES]}
     runs = [mflow.native_replay(sc), mflow.native_replay(sc)]      # two processes: two hash seeds
     bad = []
     for cid, docs, ptr in cases:
@@ -385,6 +446,14 @@ def run_battery():
                     got += [json.dumps(v) for v in x["values"]]
         if set(got) != {json.dumps(want)}:
             bad.append({"id": cid, "docs": docs, "pointer": ptr, "expected": want, "loaded": sorted(set(got))})
+    for cid, files, ptr, want in FILE_CASES:
+        got = []
+        for r in runs:
+            for x in r.get("results", []):
+                if x["id"] == cid:
+                    got += [json.dumps(v) for v in x["values"]]
+        if set(got) != {json.dumps(want)}:
+            bad.append({"id": cid, "files": files, "pointer": ptr, "expected": want, "loaded": sorted(set(got))})
     return bad, None, sc
 
 
